@@ -209,7 +209,17 @@ fn verify_link_signature_thresholds(
             &layout.keys,
         )?;
 
-        metadata_verified.insert(step.name.clone(), metadata_per_step_verified);
+        // links, rules and the summary are looked up by step name: a second
+        // step entry of the same name would replace what the first one verified
+        if metadata_verified
+            .insert(step.name.clone(), metadata_per_step_verified)
+            .is_some()
+        {
+            return Err(Error::VerificationFailure(format!(
+                "layout lists step '{}' more than once",
+                step.name
+            )));
+        }
     }
 
     Ok(metadata_verified)
